@@ -240,14 +240,61 @@ func (m *vMonC01) AfterTx(h *vHist, o *vTxObs) {
 	}
 }
 
-func (m *vMonC01) End(h *vHist) {}
+// End: the state the history ended in is exported and a new chain is started
+// from it (the path of `akash export` + a genesis-based restart).  Bank and
+// escrow are both carried by the genesis file in full, so the new chain must
+// start with the module balance equal to its recorded balances, every escrow
+// record and every actor's balance as it was.
+func (m *vMonC01) End(h *vHist) {
+	if h.stopped || len(h.last.Accts) == 0 {
+		return
+	}
+	before := h.last
+	c2, err := h.c.exportImport()
+	if err != nil {
+		m.res.Count("export_import_not_possible", 1)
+		return
+	}
+	after := c2.snapshot()
+	m.res.Count("export_import_round_trips", 1)
+	if len(before.Accts)+len(before.Pays) >= 3 {
+		m.res.Count("export_import_with_3plus_escrow_records", 1)
+	}
+	m.checkEquality(h, after, "after-export-import")
+	diff := ""
+	for _, k := range vSortedKeys(before.Accts) {
+		b, a := before.Accts[k], after.Accts[k]
+		if !b.Balance.IsEqual(a.Balance) || !b.Transferred.IsEqual(a.Transferred) || b.State != a.State || b.Owner != a.Owner {
+			diff = fmt.Sprintf("account %s: %s/%s/%s before, %s/%s/%s after", k, vAcctState(b.State), b.Balance, b.Transferred, vAcctState(a.State), a.Balance, a.Transferred)
+			break
+		}
+	}
+	for _, k := range vSortedKeys(before.Pays) {
+		b, a := before.Pays[k], after.Pays[k]
+		if diff == "" && (!b.Balance.IsEqual(a.Balance) || !b.Withdrawn.IsEqual(a.Withdrawn) || !b.Rate.IsEqual(a.Rate) || b.State != a.State || b.Owner != a.Owner) {
+			diff = fmt.Sprintf("payment %s: %s/%s/%s/%s before, %s/%s/%s/%s after", k, vPayState(b.State), b.Rate, b.Balance, b.Withdrawn, vPayState(a.State), a.Rate, a.Balance, a.Withdrawn)
+		}
+	}
+	if diff == "" && (len(before.Accts) != len(after.Accts) || len(before.Pays) != len(after.Pays)) {
+		diff = fmt.Sprintf("%d accounts / %d payments before, %d / %d after", len(before.Accts), len(before.Pays), len(after.Accts), len(after.Pays))
+	}
+	if diff != "" {
+		h.Violation("escrow-records-survive-export-import", "export-import", diff)
+	}
+	for _, a := range h.c.actors {
+		if !before.Bank[a.Bech].Equal(after.Bank[a.Bech]) {
+			h.Violation("bank-balances-survive-export-import", "export-import", fmt.Sprintf("%s held %s before and %s after", a.Name, before.Bank[a.Bech], after.Bank[a.Bech]))
+			break
+		}
+	}
+}
 
 func TestVerif_C01(t *testing.T) {
 	res := vs.NewResult("C01", "exploration",
 		"signed-tx histories (templates + state-aware random steps over all 20 message types, gaps 0..20, two money profiles) against the real app; after every tx: module balance == sum of recorded balances, per-actor bank delta == delta explained by escrow records, inflow only via the three depositing messages. distinct = (message kind, result, gap class, set of transition kinds) of txs that moved coins or changed escrow state")
 	res.Assume("chain driven at the ABCI boundary (BeginBlock/DeliverTx/EndBlock/Commit) without Tendermint; zero fees")
 	res.Assume("bank, auth and the ante handler are the production cosmos-sdk ones; actors are 9 funded secp256k1 accounts")
-	for _, f := range []string{"refund_on_close", "overdraft_payout", "withdraw_or_payout", "lost_bid_refund", "same_block_settle", "failed_tx_with_attempted_deposit", "bank_send_to_escrow_module"} {
+	for _, f := range []string{"refund_on_close", "overdraft_payout", "withdraw_or_payout", "lost_bid_refund", "same_block_settle", "failed_tx_with_attempted_deposit", "bank_send_to_escrow_module", "export_import_round_trips", "export_import_with_3plus_escrow_records"} {
 		res.Floor(f, 1)
 	}
 	vRunChainCheck(t, res, vChainOpts{Histories: [2]int{150, 6000}, Templates: 2, RandomSteps: 60}, func() []vMonitor {
